@@ -287,7 +287,8 @@ func Discharge(obls []*Oblig, dir string, timeoutS int, par int, unanimous bool)
 			r.Bytes = len(script)
 			base := fmt.Sprintf("o%04d", i)
 			r.File = filepath.Join(dir, base)
-			if len(script) > 16<<20 {
+			tooLarge := len(script) > 4<<20
+			if tooLarge && len(o.disj) <= 1 {
 				r.Status = "unknown"
 				r.Model = "VC too large"
 				return
@@ -297,10 +298,16 @@ func Discharge(obls []*Oblig, dir string, timeoutS int, par int, unanimous bool)
 				first = 5
 			}
 			qfs := ""
-			if qfAggs[i] != nil {
+			if qfAggs[i] != nil && !tooLarge {
 				qfs = "; " + o.name + " (universal hypotheses dropped)\n" + Script([]*Term{qfAggs[i]}, true, "")
 			}
-			st, sv, md, ms := solveRace(dir, base, script, first, unanimous, qfs)
+			var st, sv, md string
+			var ms int64
+			if tooLarge {
+				st = "unknown" // decide the paths one by one
+			} else {
+				st, sv, md, ms = solveRace(dir, base, script, first, unanimous, qfs)
+			}
 			if (st == "unsat" || st == "sat") || len(o.disj) <= 1 {
 				r.Status, r.Solver, r.Model, r.Ms = st, sv, md, ms
 				return
